@@ -1,4 +1,5 @@
 import Httpcache.Proofs.IndexBound
+import Httpcache.Proofs.NoOrphan
 /-
 C19 — Store footprint is bounded by the distinct resources and variants requested.
 
@@ -114,6 +115,57 @@ theorem replaced_response_is_removed (cfg : Cfg) (reqH : Header) (r : Resp) (b :
     (k' : Str) (rs : List Ref) (hR : Step.setRefs k' rs true ∈ tr) :
     ∀ x ∈ refs, x.id ≠ [] → (∃ y ∈ rs, y.id = x.id) ∨ Step.delete x.id ∈ tr :=
   store_leaves_no_orphan cfg reqH r b key refs t1 t2 ri tr res h k' rs hR
+
+/-- For EVERY sequential, fault-free history of one resource — any number of stores (misses, full replies to
+    validations in the foreground or the background, 304s that change Vary), freshening writes, invalidations
+    and deletions caused by other resources, in any order (`ReachableRes`: each step is the effect of a trace of
+    the model's own `storeResponse` / `invalidateCache`, run with the index the store holds and with every
+    write succeeding) — every stored response of the resource is named by a reference of its index. Nothing is
+    ever left that can no longer be read, replaced or invalidated: with `every_reachable_index_bounded` the
+    number of entry keys of a resource is bounded by the number of its distinct variants too, however many
+    requests are made. (What the invariant does not cover: overlapping exchanges — the recorded lost-update
+    family — and failing writes; the at-rest monitor of the check excludes the same histories.) -/
+theorem every_stored_response_is_named (cfg : Cfg) (key : Str) (s : ResState) (h : ReachableRes cfg key s) :
+    ∀ id ∈ s.entries, ∃ r ∈ s.index, r.id = id :=
+  (reachable_res_inv cfg key s h).1
+
+/-- "Invalidation removes every key it makes unreachable", for every reachable state: after an invalidation
+    (run with the index the store holds) neither the index nor any stored response of the resource is left -/
+theorem invalidation_leaves_nothing (cfg : Cfg) (key : Str) (s : ResState) (hs : ReachableRes cfg key s)
+    (req : Req) (respH : Header) (res0 : Result) (tr : List Step) (r : Result)
+    (h : Run (invalidateCache cfg req respH s.index key (.ret res0)) tr r) :
+    (applyTrace key s tr).index = [] ∧ (applyTrace key s tr).entries = [] :=
+  inval_leaves_nothing cfg req respH key res0 s tr r h (reachable_res_inv cfg key s hs).1
+
+/-- … hence the entries of a resource never outnumber the references of its index … -/
+theorem entries_bounded_by_index (cfg : Cfg) (key : Str) (s : ResState) (h : ReachableRes cfg key s)
+    (hnd : s.entries.Nodup) : s.entries.length ≤ s.index.length := by
+  have hsub : ∀ id ∈ s.entries, id ∈ s.index.map (·.id) := by
+    intro id hid
+    obtain ⟨r, hr, e⟩ := every_stored_response_is_named cfg key s h id hid
+    exact List.mem_map.mpr ⟨r, hr, e⟩
+  have := List.Nodup.length_le_of_subset hnd hsub
+  simpa using this
+
+/-- non-vacuity: the very history of the finding — one request, two replies that vary on different fields. The
+    first store writes an entry and an index; the second, replacing the reference, writes another entry, the
+    index, and DELETES the first entry; one entry is left, and it is the one the index names. -/
+def exEnv : Env := { refs := fun _ => none, entry := fun _ => none, setEntry := fun _ _ => true, setRefs := fun _ _ => true,
+                     origin := fun _ _ _ => .err 0 }
+def exCfg19 : Cfg := { glue := ⟨fun _ => none⟩, normQ := fun _ v => v, loc := fun _ => none, swrTimeout := 1 }
+def exReply (vary : Str) : Resp := { status := 200, header := [(sVary, vary)], body := [] }
+def exS1 : ResState := applyTrace (str% "k") ⟨[], []⟩
+  (exec exEnv (storeResponse exCfg19 [] (exReply (str% "A")) true (str% "k") [] 0 0 none (fun r => .ret (.resp r)))).1
+def exS2 : ResState := applyTrace (str% "k") exS1
+  (exec exEnv (storeResponse exCfg19 [] (exReply (str% "B")) true (str% "k") exS1.index 0 0 (some 0) (fun r => .ret (.resp r)))).1
+
+example : ReachableRes exCfg19 (str% "k") exS2 :=
+  .stored _ _ _ _ _ _ _ _ (.stored _ _ _ _ _ _ _ _ .empty (exec_runs _ _) (exec_faultfree _ (fun _ _ => rfl) (fun _ _ => rfl) _))
+    (exec_runs _ _) (exec_faultfree _ (fun _ _ => rfl) (fun _ _ => rfl) _)
+
+set_option maxRecDepth 100000 in
+example : exS1.entries.length = 1 ∧ exS2.entries.length = 1 ∧ exS1.entries ≠ exS2.entries ∧
+    exS2.index.map (·.id) = exS2.entries := by decide +kernel
 
 /-- INVARIANT of every index: no two references describe the same variant (id, Vary value, recorded
     selecting values); StoreResponse preserves it whatever position it replaces ('Vary: *' resources,
